@@ -675,7 +675,31 @@ func genC02exec(g *G) {
 	// a stream without print directives: Spec.render leaves directives to C03/C16, so these bundles are fully specified
 	bg2 := newBundleGen(g.R.Fork(), bundleOpts{msgs: true, directives: false, calls: true, ij: true, defaultAnywhere: true})
 	genBundles(g, bg2, n/2, false)
+	genHandBundles(g)
 	g.Exhaustive = false
+}
+
+// genHandBundles: constructs the bundle generator does not produce.
+func genHandBundles(g *G) {
+	hand := []struct {
+		name, src string
+		data      map[string]interface{}
+	}{
+		// a /** */ comment inside a template body renders nothing (/repo 79017f3)
+		{"n.t", "{namespace n}\n/** @param x */\n{template .t}\nA{$x}/** a comment */B{$x}\n{/template}\n", map[string]interface{}{"x": "<"}},
+		{"n.t", "{namespace n}\n/** @param x */\n{template .t}\n{if $x}/** c */{$x}{/if}{foreach $i in [1,2]}/** d\n */{$i}{/foreach}\n{/template}\n", map[string]interface{}{"x": "&"}},
+		{"n.t", "{namespace n autoescape=\"false\"}\n/** @param x */\n{template .t}\n{let $y}/** @param q */{$x}{/let}{$y}\n{/template}\n", map[string]interface{}{"x": "<"}},
+	}
+	for i, h := range hand {
+		fs := []srcFile{{"n.soy", h.src}}
+		tree, err := parseFilesMsgs(fs)
+		if err != nil {
+			g.Add(Case{Req: req("noparse", encSources(fs)), Class: "unparsable", Note: "hand#" + strconv.Itoa(i), NoModel: true})
+			continue
+		}
+		g.Add(Case{Req: req("exec", encSources(fs), tree, "-", hxs(h.name), mapTokens(h.data), "nil", "-"), NT: true, Class: "hand",
+			Note: h.name + " hand#" + strconv.Itoa(i) + "\n" + h.src})
+	}
 }
 
 // genBundles renders every template of n generated bundles; hostile = C06 data.
